@@ -35,6 +35,9 @@ func (o *Out) Put(v interface{}) {
 	o.N++
 }
 
+// Flush makes what was written so far survive a crash of the process.
+func (o *Out) Flush() { o.w.Flush() }
+
 func (o *Out) Close() {
 	o.w.Flush()
 	o.f.Close()
